@@ -9,6 +9,8 @@ import RoaringModel.Props.C03
 import RoaringModel.Props.C17
 import RoaringModel.Safe
 import RoaringModel.Lemmas.SafeLemmas
+import RoaringModel.Lemmas.FidelityFmt
+import RoaringModel.Props.C10
 /-!
 # C16 — public operations are total: only the documented panics (property theorems)
 
@@ -169,6 +171,76 @@ theorem C16_debug_spec (b : Bitmap) (hwf : Bitmap.WF b) :
       have hne : x :: xs ≠ [] := by simp
       rw [List.getLast?_eq_some_getLast hne]
       rfl
+
+/-! ### `Debug` as the driver executes it: the list branch runs the mirrored iterators (fidelity audit)
+
+`Bitmap.debugFmtM` / `Treemap.debugFmtM` (Fmt.lean, TreemapFmt.lean) print `self.iter().collect::<Vec<_>>()` by
+driving the mirrored `bitmap::Iter` / `treemap::Iter` with `next()` until `None`, as `Vec::from_iter` does; the
+definitions above (`debugFmt`) print the abstraction `elems`.  They agree on every well-formed value. -/
+
+/-- **mirror (32-bit).** -/
+theorem C16_debug_mirror_eq (b : Bitmap) (hwf : Bitmap.WF b) : Bitmap.debugFmtM b = Bitmap.debugFmt b :=
+  Fidelity.debugFmtM_eq b ⟨⟨hwf.1, by
+    intro c hc
+    have hst := (hwf.2 c hc).2
+    unfold Container.IterOK Store.IterOK
+    cases hs : c.store with
+    | array v => rw [hs] at hst; exact hst.1
+    | bitmap bs => rw [hs] at hst; exact ⟨hst.1.length, hst.1.words, hst.1.len⟩⟩, fun c hc => (hwf.2 c hc).1⟩
+
+/-- `Debug` formatting — the executed definition — is total and is the SPEC string of the element set. -/
+theorem C16_debug_mirror_total (b : Bitmap) (hwf : Bitmap.WF b) : (Bitmap.debugFmtM b).isSome = true := by
+  rw [C16_debug_mirror_eq b hwf]; exact C16_debug_total b hwf
+
+theorem C16_debug_mirror_spec (b : Bitmap) (hwf : Bitmap.WF b) :
+    Bitmap.debugFmtM b = some (Spec.debugString (Bitmap.elems b)) := by
+  rw [C16_debug_mirror_eq b hwf]; exact C16_debug_spec b hwf
+
+/-- Non-vacuity: both branches of the executed definition on concrete well-formed values
+    (3 values: the iterator is drained; 17 values: the summary). -/
+example : Bitmap.debugFmtM [⟨0, .array [1, 2, 70]⟩] = some "RoaringBitmap<[1, 2, 70]>"
+    ∧ Bitmap.debugFmtM [⟨0, .array (List.range 17)⟩] = some "RoaringBitmap<17 values between 0 and 16>" := by
+  refine ⟨?_, by decide⟩
+  rw [C16_debug_mirror_eq]
+  · decide
+  · refine (bitmapWF_iff _).1 ⟨by decide, ?_⟩
+    intro c hc
+    simp at hc
+    subst hc
+    exact ⟨by decide, by decide, by decide, by decide⟩
+
+/-- **mirror (64-bit).** -/
+theorem C16_tdebug_mirror_eq (t : Treemap) (h : Treemap.TWF t) : Treemap.debugFmtM t = Treemap.debugFmt t :=
+  Fidelity.tdebugFmtM_eq t h
+
+/-- **`Debug` of a `RoaringTreemap` is total and determined by the element set** — stated for the executed
+    definition (`debugFmtM`): for a well-formed treemap neither `unwrap()` of treemap/fmt.rs can fail and the
+    output is the SPEC string. -/
+theorem C16_tdebug_spec (t : Treemap) (h : Treemap.TWF t) :
+    Treemap.debugFmtM t = some (Spec.debugString64 (Treemap.elems t)) := by
+  rw [C16_tdebug_mirror_eq t h]
+  unfold Treemap.debugFmt Spec.debugString64
+  rw [C10.C10_len t h, C10.C10_min t h, C10.C10_max t h]
+  unfold Spec.min? Spec.max?
+  split
+  · rfl
+  · rename_i hlen
+    cases hs : Treemap.elems t with
+    | nil => rw [hs] at hlen; simp at hlen
+    | cons x xs =>
+      have hne : x :: xs ≠ [] := by simp
+      rw [List.getLast?_eq_some_getLast hne]
+      rfl
+
+theorem C16_tdebug_total (t : Treemap) (h : Treemap.TWF t) : (Treemap.debugFmtM t).isSome = true := by
+  rw [C16_tdebug_spec t h]; rfl
+
+/-- Non-vacuity: the three-partition treemap of C12 is well-formed; the executed formatter drains its iterator. -/
+example : Treemap.TWF C12.tEx ∧
+    Treemap.debugFmtM C12.tEx = some "RoaringTreemap<[1, 5, 8589934595, 8589934642, 17179869191]>" := by
+  refine ⟨C12.tEx_TWF, ?_⟩
+  rw [C16_tdebug_spec _ C12.tEx_TWF]
+  decide
 
 /-! ### the panic sites of the other operations (thin corollaries of C01 / C03 / C17 / C07's library) -/
 
